@@ -766,7 +766,15 @@ impl PartitionedFileGroup {
             "No files would be left after deduplicating"
         );
         let mut commands = Vec::new();
-        let retained_file = Arc::new(self.to_keep.swap_remove(0));
+        // Link to a real file. A hard link to a symbolic link would be another symbolic link,
+        // and a relative one would point to a different place.
+        let is_link = |f: &PathAndMetadata| f.link_metadata.is_some();
+        let retained_file_index = match self.to_keep.iter().position(|f| !is_link(f)) {
+            Some(i) => i,
+            None if matches!(strategy, DedupeOp::Remove | DedupeOp::Move(_)) => 0,
+            None => return vec![],
+        };
+        let retained_file = Arc::new(self.to_keep.swap_remove(retained_file_index));
         for dropped_file in self.to_drop {
             match strategy {
                 DedupeOp::SymbolicLink => commands.push(FsCommand::SoftLink {
@@ -785,7 +793,10 @@ impl PartitionedFileGroup {
                 DedupeOp::Move(target_dir) => {
                     let source = dropped_file;
                     let source_path = &source.path;
-                    let use_rename = Self::are_on_same_mount(devices, source_path, target_dir);
+                    // a symbolic link has to be resolved by copying the file it points to,
+                    // after moving to another directory it could point nowhere
+                    let use_rename = !is_link(&source)
+                        && Self::are_on_same_mount(devices, source_path, target_dir);
                     let target = Self::move_target(target_dir, source_path);
                     commands.push(FsCommand::Move {
                         source,
@@ -906,6 +917,16 @@ fn partition(
     let n = max(1, config.rf_over.unwrap_or(1));
     let missing_count = min(to_drop.len(), n.saturating_sub(to_retain.len()));
     to_retain.extend(to_drop.drain(0..missing_count));
+
+    // A symbolic link does not store the data. If only symbolic links were retained
+    // (possible when the files were grouped with `--symbolic-links`), the files they point to
+    // could be among the dropped ones. Retain also the first sub-group with a real file.
+    let is_link = |f: &PathAndMetadata| f.link_metadata.is_some();
+    if to_retain.iter().all(|g| g.files.iter().all(is_link)) {
+        if let Some(i) = to_drop.iter().position(|g| !g.files.iter().all(is_link)) {
+            to_retain.push(to_drop.remove(i));
+        }
+    }
 
     assert!(to_retain.len() >= n || to_drop.is_empty());
     Ok(PartitionedFileGroup {
